@@ -52,6 +52,45 @@ type HistoryConfig struct {
 	Tmp      string
 	Climb    bool // include spellings that climb above the (view) root
 	DiskPre  bool // C02: the backend is only held to FsTree inside the preconditions; never copy a directory into itself
+	// Wide: a scripted history shape -- ONE directory is filled with 9..len(Names) children (files and directories) and
+	// then drained one Remove / RemoveAll at a time, with queries and re-creations in between (big directories
+	// that shrink: what small exhaustive exploration and short random histories never build)
+	Wide bool
+}
+
+// wideChoice overrides the random choice of operation and path in a Wide history.
+func wideChoice(r *rand.Rand, step int, cfg *HistoryConfig, cur Tree) (name string, sp []string, ok bool) {
+	dir := cfg.Names[0]
+	fill := 9 + (len(cfg.Names)-9)*((step*7+3)%2) // 9 or all names
+	if fill > len(cfg.Names) {
+		fill = len(cfg.Names)
+	}
+	var kids []string
+	for _, n := range cur {
+		if len(n.P) == 2 && n.P[0] == dir {
+			kids = append(kids, n.P[1])
+		}
+	}
+	if step < fill {
+		if step%3 == 2 {
+			return "mkdir", []string{dir, cfg.Names[step%len(cfg.Names)]}, true
+		}
+		return "write", []string{dir, cfg.Names[step%len(cfg.Names)]}, true
+	}
+	switch r.Intn(10) {
+	case 0:
+		return "readdir", []string{dir}, true
+	case 1:
+		return []string{"isexist", "isfile", "lstat", "read"}[r.Intn(4)], []string{dir, cfg.Names[r.Intn(len(cfg.Names))]}, true
+	case 2:
+		return []string{"write", "mkdir"}[r.Intn(2)], []string{dir, cfg.Names[r.Intn(len(cfg.Names))]}, true
+	case 3:
+		return "", nil, false // a free random step
+	}
+	if len(kids) == 0 {
+		return "remove", []string{dir}, true
+	}
+	return []string{"remove", "removeall", "removeall"}[r.Intn(3)], []string{dir, kids[r.Intn(len(kids))]}, true
 }
 
 type liveHandle struct {
@@ -200,10 +239,17 @@ func RunHistory(r *rand.Rand, cfg *HistoryConfig, d *Dict, tw *TraceWriter, next
 		}
 		op := Op{Name: opNames[r.Intn(len(opNames))]}
 		op.Sp = Decorate(r, randPath(r, &vcfg, vt, true), cfg.Names)
-		if cfg.Climb && r.Intn(15) == 0 {
+		wide := false
+		if cfg.Wide {
+			if nm, sp, ok := wideChoice(r, step, cfg, cur); ok {
+				v = views[0]
+				op.Name, op.Sp, wide = nm, sp, true
+			}
+		}
+		if !wide && cfg.Climb && r.Intn(15) == 0 {
 			op.Sp = append([]string{".."}, op.Sp...)
 		}
-		if cfg.Climb && r.Intn(25) == 0 {
+		if !wide && cfg.Climb && r.Intn(25) == 0 {
 			op.Sp = append([]string{cfg.Names[0], "..", ".."}, op.Sp...)
 		}
 		switch op.Name {
